@@ -152,8 +152,15 @@ impl Cache for MemoryStore {
 
     fn flush(&self, header: CacheMetaData) {
         if header.time_to_live > 0 {
+            let now = self.timer.timestamp();
+            let deadline = now + header.time_to_live as u64;
             self.memory.alter_all(|_key, mut value| {
-                value.header.time_to_live = header.time_to_live;
+                // a delayed flush may shorten an item's life, never prolong it
+                let ttl = value.header.time_to_live as u64;
+                if ttl == 0 || value.header.timestamp + ttl > deadline {
+                    value.header.timestamp = now;
+                    value.header.time_to_live = header.time_to_live;
+                }
                 value
             });
         } else {
